@@ -38,8 +38,11 @@ fn pool(threads: usize) -> JxlThreadPool {
     }
 }
 
+/// The picture as a caller sees it: the planar buffers of the (oriented, region-sized) render.  The raw
+/// grids behind it may legitimately cover different areas depending on who asked for the frame first
+/// (a frame blended earlier for a patch source caches only that area), so they are not compared.
 fn bits_of(r: &jxl_oxide::Render) -> Bits {
-    render_grids(r).iter().map(grid_bits).collect()
+    r.image_planar().iter().map(|p| (p.width(), p.height(), p.buf().iter().map(|v| v.to_bits()).collect())).collect()
 }
 
 fn apply_region(image: &mut JxlImage, r: Region) {
@@ -88,10 +91,10 @@ impl Check for C08 {
         true
     }
     fn deadline(&self) -> std::time::Duration {
-        std::time::Duration::from_secs(60)
+        std::time::Duration::from_secs(20)
     }
     fn rule(&self) -> String {
-        "choice sequence -> image (multi-frame Modular with blending / crops / patches / reference-only frames weighted up; also single-frame Modular and VarDCT; optionally one corrupted section byte) x fault index k over the tracked allocations of read + render of every keyframe (every k when the clean run makes <= 48 tracked allocations in quick / 400 in thorough = exhaustive for that image, else a sample of 24 biased to the render phase) x generated program of later calls (render same/other keyframes, set a region inside the image or back to full, lift the fault, arm it again n allocations later) x pool none (mostly) or rayon(2). Oracle: no call panics or aborts, every call returns (60 s deadline per case in a worker process, confirmed alone at 10x); every render that returns Ok - while the fault is armed, after it is lifted, after a region change - is bit-identical to the render of the same keyframe and region by a fresh decode that never failed. An evaluation = one image with all its fault points. Non-trivial: some fault fired inside a render call of an image with >= 2 frames and a later render call returned Ok; distinct by FNV of the stream.".into()
+        "choice sequence -> image (multi-frame Modular with blending / crops / patches / reference-only frames weighted up; also single-frame Modular and VarDCT; optionally one corrupted section byte) x fault index k over the tracked allocations of read + render of every keyframe (every k when the clean run makes <= 48 tracked allocations in quick / 400 in thorough = exhaustive for that image, else a sample of 24 biased to the render phase) x generated program of later calls (render same/other keyframes, set a region inside the image or back to full, lift the fault, arm it again n allocations later) x pool none (mostly) or rayon(2). Oracle: no call panics or aborts, every call returns (20 s deadline per case in a worker process, confirmed alone at 10x); every render that returns Ok - while the fault is armed, after it is lifted, after a region change - is bit-identical to the render of the same keyframe and region by a fresh decode that never failed. An evaluation = one image with all its fault points. Non-trivial: some fault fired inside a render call of an image with >= 2 frames and a later render call returned Ok; distinct by FNV of the stream.".into()
     }
     fn assumptions(&self) -> Vec<String> {
         vec![
